@@ -40,6 +40,9 @@ def dispatch(prop):
     if prop == "C13":
         import text
         return text.run_c13
+    if prop == "C09":
+        import defgraph
+        return defgraph.run_c09
     if prop == "C08":
         import conversions
         return conversions.run_c08
